@@ -21,6 +21,9 @@ pub(crate) type JobResult = (Job, Result<ExecutionResult, error::Error>);
 pub struct JobManager {
     /// The jobs that are currently managed by the shell.
     pub jobs: Vec<Job>,
+    /// Verification hook: identity of this manager in trace events.
+    #[cfg(brush_verif)]
+    verif_id: crate::verif::Identity,
 }
 
 /// Represents a task that is part of a job.
@@ -106,6 +109,19 @@ impl JobManager {
         let id = self.jobs.len() + 1;
         job.id = id;
         job.annotation = JobAnnotation::Current;
+        #[cfg(brush_verif)]
+        {
+            job.verif_tok = crate::verif::take_pending_tok();
+            #[allow(clippy::cast_possible_wrap)]
+            crate::verif::event(
+                "job_add",
+                &[
+                    ("mgr", crate::verif::i(self.verif_id.0)),
+                    ("id", id as i64),
+                    ("tok", crate::verif::i(job.verif_tok)),
+                ],
+            );
+        }
         self.jobs.push(job);
 
         #[allow(clippy::unwrap_used, reason = "we just pushed an element")]
@@ -164,9 +180,21 @@ impl JobManager {
 
     /// Waits for all managed jobs to complete.
     pub async fn wait_all(&mut self) -> Result<Vec<Job>, error::Error> {
+        #[cfg(brush_verif)]
+        crate::verif::event(
+            "wait_all_begin",
+            &[("mgr", crate::verif::i(self.verif_id.0))],
+        );
+
         for job in &mut self.jobs {
             job.wait().await?;
         }
+
+        #[cfg(brush_verif)]
+        crate::verif::event(
+            "wait_all_end",
+            &[("mgr", crate::verif::i(self.verif_id.0))],
+        );
 
         Ok(self.sweep_completed_jobs())
     }
@@ -179,6 +207,16 @@ impl JobManager {
         while i != self.jobs.len() {
             if let Some(result) = self.jobs[i].poll_done()? {
                 let job = self.jobs.remove(i);
+                #[cfg(brush_verif)]
+                #[allow(clippy::cast_possible_wrap)]
+                crate::verif::event(
+                    "job_remove",
+                    &[
+                        ("mgr", crate::verif::i(self.verif_id.0)),
+                        ("id", job.id as i64),
+                        ("tok", crate::verif::i(job.verif_tok)),
+                    ],
+                );
                 results.push((job, result));
             } else if matches!(self.jobs[i].state, JobState::Done) {
                 // TODO(jobs): This is a workaround to remove jobs that are done but for which we
@@ -198,6 +236,16 @@ impl JobManager {
         let mut i = 0;
         while i != self.jobs.len() {
             if self.jobs[i].tasks.is_empty() {
+                #[cfg(brush_verif)]
+                #[allow(clippy::cast_possible_wrap)]
+                crate::verif::event(
+                    "job_remove",
+                    &[
+                        ("mgr", crate::verif::i(self.verif_id.0)),
+                        ("id", self.jobs[i].id as i64),
+                        ("tok", crate::verif::i(self.jobs[i].verif_tok)),
+                    ],
+                );
                 completed_jobs.push(self.jobs.remove(i));
             } else {
                 i += 1;
@@ -272,6 +320,10 @@ pub struct Job {
 
     /// The current operational state of the job.
     pub state: JobState,
+
+    /// Verification hook: token of the background task this job was created for.
+    #[cfg(brush_verif)]
+    pub verif_tok: u64,
 }
 
 impl Display for Job {
@@ -303,6 +355,8 @@ impl Job {
             annotation: JobAnnotation::None,
             command_line,
             state,
+            #[cfg(brush_verif)]
+            verif_tok: 0,
         }
     }
 
@@ -383,6 +437,16 @@ impl Job {
                 }
             }
         }
+
+        #[cfg(brush_verif)]
+        #[allow(clippy::cast_possible_wrap)]
+        crate::verif::event(
+            "job_waited",
+            &[
+                ("id", self.id as i64),
+                ("tok", crate::verif::i(self.verif_tok)),
+            ],
+        );
 
         self.state = JobState::Done;
 
